@@ -10,7 +10,10 @@ def Numbered (l : List Ev) : Prop := ∀ g, ((l.filter (·.g == g)).map (·.i)) 
 structure QInv (s : QSys) : Prop where
   numbered : Numbered s.posted
   sub : (s.delivered ++ s.queue).Sublist s.posted
-  blocking : ∀ e ∈ s.posted, e.blocking = true → e ∈ s.delivered ++ s.queue
+  /-- until `Close` has completed (`chQuit` open) every completed blocking post is queued or delivered -/
+  blocking : s.quit = false → ∀ e ∈ s.posted, e.blocking = true → e ∈ s.delivered ++ s.queue
+  /-- … and nothing blocking has been dropped -/
+  droppedNB : s.quit = false → ∀ e ∈ s.dropped, e.blocking = false
 
 theorem numbered_append (l : List Ev) (g : Nat) (b : Bool) (h : Numbered l) :
     Numbered (l ++ [{ g := g, i := countOf g l, blocking := b }]) := by
@@ -25,7 +28,7 @@ theorem numbered_append (l : List Ev) (g : Nat) (b : Bool) (h : Numbered l) :
     simp [countOf, List.filter_append, hne] at this ⊢
     exact this
 
-theorem qinv_init : QInv {} := ⟨fun g => by simp [countOf], by simp, by simp⟩
+theorem qinv_init : QInv {} := ⟨fun g => by simp [countOf], by simp, by simp, by simp⟩
 
 theorem qinv_step (qcap : Nat) (s s' : QSys) (l : QLabel) (h : QInv s) (hn : qnext qcap s l = some s') : QInv s' := by
   cases l with
@@ -34,12 +37,12 @@ theorem qinv_step (qcap : Nat) (s s' : QSys) (l : QLabel) (h : QInv s) (hn : qne
     split at hn
     · -- accepted
       simp at hn; subst hn
-      refine ⟨numbered_append _ g b h.numbered, ?_, ?_⟩
+      refine ⟨numbered_append _ g b h.numbered, ?_, ?_, h.droppedNB⟩
       · simpa [List.append_assoc] using List.Sublist.append h.sub (List.Sublist.refl _)
-      · intro e he hb
+      · intro hq e he hb
         simp only [List.mem_append, List.mem_singleton] at he ⊢
         rcases he with he | he
-        · rcases List.mem_append.mp (h.blocking e he hb) with h1 | h1
+        · rcases List.mem_append.mp (h.blocking hq e he hb) with h1 | h1
           · exact Or.inl h1
           · exact Or.inr (Or.inl h1)
         · exact Or.inr (Or.inr he)
@@ -47,25 +50,42 @@ theorem qinv_step (qcap : Nat) (s s' : QSys) (l : QLabel) (h : QInv s) (hn : qne
       · simp at hn
       · rename_i hfull hb
         simp at hn; subst hn
-        refine ⟨numbered_append _ g b h.numbered, ?_, ?_⟩
+        refine ⟨numbered_append _ g b h.numbered, ?_, ?_, ?_⟩
         · exact h.sub.trans (List.sublist_append_left _ _)
-        · intro e he hbl
+        · intro hq e he hbl
           simp only [List.mem_append, List.mem_singleton] at he
           rcases he with he | he
-          · exact h.blocking e he hbl
+          · exact h.blocking hq e he hbl
           · subst he; simp at hbl; simp [hbl] at hb
+        · intro hq e he
+          simp only [List.mem_append, List.mem_singleton] at he
+          rcases he with he | he
+          · exact h.droppedNB hq e he
+          · subst he; simpa using hb
   | consume =>
     simp only [qnext] at hn
     split at hn
     · simp at hn
     · rename_i e q heq
       simp at hn; subst hn
-      refine ⟨h.numbered, ?_, ?_⟩
+      refine ⟨h.numbered, ?_, ?_, h.droppedNB⟩
       · have := h.sub; rw [heq] at this; simpa [List.append_assoc] using this
-      · intro e' he' hb
-        have := h.blocking e' he' hb
+      · intro hq e' he' hb
+        have := h.blocking hq e' he' hb
         rw [heq] at this
         simpa [List.append_assoc] using this
+  | quit =>
+    simp only [qnext, Option.some.injEq] at hn; subst hn
+    exact ⟨h.numbered, h.sub, fun hq => by simp at hq, fun hq => by simp at hq⟩
+  | giveUp g =>
+    simp only [qnext] at hn
+    split at hn
+    · rename_i hq
+      simp at hn; subst hn
+      refine ⟨numbered_append _ g true h.numbered, h.sub.trans (List.sublist_append_left _ _), ?_, ?_⟩
+      · intro hq'; simp [hq] at hq'
+      · intro hq'; simp [hq] at hq'
+    · simp at hn
 
 theorem qinv_reachable (qcap : Nat) (s : QSys) (h : QReachable qcap s) : QInv s := by
   induction h with
